@@ -84,6 +84,24 @@ func init() {
 			}
 			return Slice{A: s}
 		},
+		// ASCII case mapping as one ite per byte (the real loops fork per character);
+		// strings with a possibly non-ASCII byte fall back to the real code
+		"strings.ToLower": func(e *Exec, c *frame, fn *ssa.Function, a []Value) Value { return e.asciiCase(c, fn, a, true) },
+		"strings.ToUpper": func(e *Exec, c *frame, fn *ssa.Function, a []Value) Value { return e.asciiCase(c, fn, a, false) },
+		"strings.EqualFold": func(e *Exec, c *frame, fn *ssa.Function, a []Value) Value {
+			x, y := a[0].(Str), a[1].(Str)
+			if x.OpaqueID == 0 && y.OpaqueID == 0 && e.decide(e.c.And(e.allASCII(x), e.allASCII(y))) {
+				if len(x.B) != len(y.B) {
+					return e.c.False
+				}
+				r := e.c.True
+				for i := range x.B {
+					r = e.c.And(r, e.c.Eq(e.lowerByte(x.B[i]), e.lowerByte(y.B[i])))
+				}
+				return r
+			}
+			return e.callBody(c, fn, a)
+		},
 		"internal/stringslite.Clone": func(e *Exec, _ *frame, _ *ssa.Function, a []Value) Value { return a[0] },
 		"strings.Clone":              func(e *Exec, _ *frame, _ *ssa.Function, a []Value) Value { return a[0] },
 		"strings.Index": func(e *Exec, _ *frame, _ *ssa.Function, a []Value) Value {
@@ -897,4 +915,45 @@ func mathRound(f func(float64) float64) intrinsic {
 		e.unsupported("rounding of an unknown float")
 		return nil
 	}
+}
+
+func (e *Exec) allASCII(s Str) *smt.Term {
+	r := e.c.True
+	for _, b := range s.B {
+		r = e.c.And(r, e.c.Cmp(smt.KUlt, b, e.byteConst[0x80]))
+	}
+	return r
+}
+
+func (e *Exec) lowerByte(b *smt.Term) *smt.Term {
+	isUp := e.c.And(e.c.Cmp(smt.KUle, e.byteConst['A'], b), e.c.Cmp(smt.KUle, b, e.byteConst['Z']))
+	return e.c.Ite(isUp, e.c.Bin(smt.KAdd, b, e.byteConst[32]), b)
+}
+
+func (e *Exec) upperByte(b *smt.Term) *smt.Term {
+	isLo := e.c.And(e.c.Cmp(smt.KUle, e.byteConst['a'], b), e.c.Cmp(smt.KUle, b, e.byteConst['z']))
+	return e.c.Ite(isLo, e.c.Bin(smt.KSub, b, e.byteConst[32]), b)
+}
+
+func (e *Exec) asciiCase(caller *frame, fn *ssa.Function, a []Value, lower bool) Value {
+	s := a[0].(Str)
+	if s.OpaqueID != 0 || !e.decide(e.allASCII(s)) {
+		return e.callBody(caller, fn, a)
+	}
+	out := make([]*smt.Term, len(s.B))
+	for i, b := range s.B {
+		if lower {
+			out[i] = e.lowerByte(b)
+		} else {
+			out[i] = e.upperByte(b)
+		}
+	}
+	return Str{B: out}
+}
+
+// callBody executes fn's real SSA body (used by intrinsics that only handle a fast case).
+func (e *Exec) callBody(caller *frame, fn *ssa.Function, args []Value) Value {
+	e.forceBody++
+	defer func() { e.forceBody-- }()
+	return e.callSSA(caller, 0, fn, args, nil)
 }
